@@ -18,6 +18,36 @@ CLAIMS = {
             "and return objects sharing no Point2D with their arguments; JordanCurve.split preserves the region "
             "(C15). Getters documented as 'not copy' are out of scope.",
             "DESIGN.md section 2, C08"),
+    "C09": ("symbolic extraction of the point maps as linear forms + structural coverage rules (every control point "
+            "exactly once, every boundary curve) + cache-coherence abstract interpretation",
+            "Decides that Point2D.move/scale/rotate are exactly the documented affine maps (no read-after-write "
+            "hazard), that curve/shape transformations apply them once to every distinct control point of every "
+            "boundary with the arguments forwarded, that the degrees flag applies pi/180 iff set, that they return "
+            "self and that the orientation cache is reset after non-isometries. With affine invariance of Bezier "
+            "curves (textbook) these clauses are sufficient for the containment/area statements up to rounding; that "
+            "last step is mathematics and is not proved by the checker.",
+            "Assumes np.cos/np.sin; float rounding not analysed; exactness of move/scale is C13's rule R13.1; the "
+            "inverse-transformation round trip is not decided.",
+            "DESIGN.md section 2, C09"),
+    "C10": ("path-sensitive abstract interpretation of cache coherence (RESET/FILL/WRITE/CALL transformers over every "
+            "method), memo-table def-use rules, nondeterminism-source and set-iteration rules, effect analysis",
+            "Decides for every history that each lazily cached field is reset after every write to the state it is "
+            "derived from (generic: any new lazy cache is picked up; caches on composite classes must reset their "
+            "sub-objects), that memo tables are keyed completely and never mutated, that no nondeterminism source "
+            "reaches a result, and that queries write nothing but caches and subdivisions.",
+            "Not decided: that an operator takes the same numeric decisions on a subdivided operand as on a fresh one "
+            "(in-place split changes the representation). Direct mutation of points/segments obtained from the "
+            "documented 'not copy' getters by user code is out of scope.",
+            "DESIGN.md section 2, C10"),
+    "C11": ("effect analysis over all call paths (every internal call boundary is a crash point) + commit-point / "
+            "single-writer / validate-before-write structural rules",
+            "Decides for every crash point that non-mutating operations make no temporary in-place change of operand "
+            "state (paired or not), that the representation-only mutators they may reach commit by one final store "
+            "after preparing fresh pieces, that cache fills are single stores, and that in-place transformations "
+            "validate every argument before the first coordinate write.",
+            "Assumes a single attribute store is atomic; region preservation of split is C15's business; an interrupt "
+            "inside a documented in-place mutator (invert, move...) is outside the property.",
+            "DESIGN.md section 2, C11"),
 }
 
 NOT_YET = "check not built yet in this round (planned, see DESIGN.md section 2)"
